@@ -1,5 +1,6 @@
 import Driver.Util
 import ClairModel.Model.Cvss
+import ClairModel.Model.CvssEnrich
 
 /-
   Line protocol of property C18 (stateless; `reset` answers `ok`).
@@ -16,6 +17,15 @@ import ClairModel.Model.Cvss
     rt <va> <hexA> <vb> <hexB> -> err | ok <printed A> <printed B>   (printing is a function of the vector:
                                                       the implementation side shows the bytes MarshalText
                                                       returned for A after B was marshalled as well)
+    cv <hex text>      -> ok <m1>,<m2>,… | ok -          (enricher.CVERegexp.FindAllString(text, -1), each match in hex)
+    en <db> <vulns>    -> err | ok <id>=<blob>,<blob>;… | <key>/<key>/…
+                          db    = rec;rec;…   rec  = tag+tag+…:<hex blob>        (`-` = no record)
+                          vulns = v;v;…       v    = id:<hex description>:<hex name>:<hex links>
+                          the getter answers a query with the records (db order) that carry one of
+                          the queried tags and fails when the query holds the tag CVE-1111-1111;
+                          ids in the answer sorted, keys = the sorted cache keys of the getter calls made
+    fd <items>         -> ok <id>=<hex raw>;…            (`-` = nothing)
+                          item = id:a | id:n | id:o<hex raw>   (no cvssV3 member / null / the object)
 -/
 namespace Driver.C18
 open ClairModel.Cvss
@@ -69,6 +79,74 @@ def reprint (ver : String) (s : List Nat) : Option String :=
   else if ver == "3" then (parse3 s).map fun v => str (print3 v)
   else if ver == "4" then (parse4 s).map fun v => str (print4 v)
   else none
+
+/-! ### enricher ops -/
+
+open ClairModel.CvssEnrich in
+def hexOf (bs : List Nat) : String := Driver.hex (bs.map UInt8.ofNat)
+
+def asciiBytes (s : String) : List Nat := s.toList.map Char.toNat
+
+def sortStrings (xs : List String) : List String := (xs.toArray.qsort (· < ·)).toList
+
+open ClairModel.CvssEnrich in
+def parseDb (db : String) : Option (List Rec) :=
+  if db == "-" then some [] else
+  (db.splitOn ";").mapM fun r =>
+    match r.splitOn ":" with
+    | [tags, blob] => (toBytes blob).map fun b => ⟨(tags.splitOn "+").map asciiBytes, b⟩
+    | _ => none
+
+open ClairModel.CvssEnrich in
+def parseVulns (vs : String) : Option (List Vuln) :=
+  if vs == "-" then some [] else
+  (vs.splitOn ";").mapM fun v =>
+    match v.splitOn ":" with
+    | [id, d, n, l] =>
+      match toBytes d, toBytes n, toBytes l with
+      | some d, some n, some l => some ⟨asciiBytes id, [d, n, l]⟩
+      | _, _, _ => none
+    | _ => none
+
+/-- "CVE-1111-1111" -/
+def poisonTag : List Nat := asciiBytes "CVE-1111-1111"
+
+open ClairModel.CvssEnrich in
+def dbGetter (db : List Rec) : Getter := fun ts =>
+  if ts.contains poisonTag then none
+  else some (db.filter fun r => r.tags.any fun t => ts.contains t)
+
+open ClairModel.CvssEnrich in
+def enrichOp (db vs : String) : String :=
+  match parseDb db, parseVulns vs with
+  | some db, some vs =>
+    match enrich (dbGetter db) vs with
+    | none => "err"
+    | some st =>
+      let entries := sortStrings (st.out.map fun (id, blobs) => s!"{str id}={",".intercalate (blobs.map hexOf)}")
+      let calls := sortStrings (st.calls.map str)
+      let e := if entries.isEmpty then "-" else ";".intercalate entries
+      let c := if calls.isEmpty then "-" else "/".intercalate calls
+      s!"ok {e} | {c}"
+  | _, _ => "bad-op"
+
+open ClairModel.CvssEnrich in
+def feedOp (items : String) : String :=
+  let parsed : Option (List Item) :=
+    if items == "-" then some [] else
+    (items.splitOn ";").mapM fun it =>
+      match it.splitOn ":" with
+      | [id, k] =>
+        if k == "a" then some ⟨asciiBytes id, none, false⟩
+        else if k == "n" then some ⟨asciiBytes id, some (asciiBytes "null"), false⟩
+        else if k.startsWith "o" then (toBytes (String.ofList (k.toList.drop 1))).map fun raw => ⟨asciiBytes id, some raw, false⟩
+        else none
+      | _ => none
+  match parsed with
+  | none => "bad-op"
+  | some items =>
+    let out := (writeCVSS items).map fun (id, raw) => s!"{str id}={hexOf raw}"
+    if out.isEmpty then "ok -" else s!"ok {";".intercalate out}"
 
 def stepLine (_ : Unit) (l : String) : Unit × String :=
   if l == "reset" then ((), "ok") else
@@ -132,6 +210,14 @@ def stepLine (_ : Unit) (l : String) : Unit × String :=
         | some pa, some pb => s!"ok {pa} {pb}"
         | _, _ => "err"
       | _, _ => "bad-op"
+    | ["cv", h] =>
+      match toBytes h with
+      | none => "bad-op"
+      | some s =>
+        let ms := ClairModel.CvssEnrich.findAll s
+        if ms.isEmpty then "ok -" else s!"ok {",".intercalate (ms.map hexOf)}"
+    | ["en", db, vs] => enrichOp db vs
+    | ["fd", items] => feedOp items
     | ["o2", h] =>
       match toBytes h with
       | none => "bad-op"
